@@ -188,8 +188,8 @@ def run(chk):
                     shutil.rmtree(dd_, ignore_errors=True)
                 return out
             X = Hh
-            s = oqupy.TimeDependentSystemWithField(lambda t, f: X + 0.1 * f.real * X @ X, gammas=[(lambda t, f, g_=g_: g_) for g_ in [0.3, 0.15][:len(Ls)]],
-                                                   lindblad_operators=[(lambda t, f, L_=L_: L_) for L_ in Ls])
+            s = oqupy.TimeDependentSystemWithField(lambda t, f: X + 0.1 * f.real * X @ X, gammas=[(lambda t, g_=g_: g_) for g_ in [0.3, 0.15][:len(Ls)]],
+                                                   lindblad_operators=[(lambda t, L_=L_: L_) for L_ in Ls])
             mfs = oqupy.MeanFieldSystem([s], field_eom=lambda t, st, f: -0.1 * f + 0.2 * np.trace(st[0] @ X))
             dyn = quiet(oqupy.MeanFieldTempo(mfs, [bath], par, [rr], 0.2 + 0j, 0.0, unique=unique).compute, 0.4, progress_type="silent")
             return np.array(dyn.system_dynamics[0].states)
